@@ -1187,3 +1187,78 @@ def wait_closures(chk, P, prefix):
             raise mir.AnchorMissing("callers of send_or_wait (sync::blocking_send, tokio::send)")
         return True, "", sites
     chk.ob("%s.R3:wait-closures" % prefix, "blocking/async send wait only for the remaining time handed to them by send_or_wait", f)
+
+
+def metrics_accounting(chk, P, prefix, crates=("emit_batcher",)):
+    """Counters only ever add; every sampled metric is named after the field it reads; the queue_length gauge is the
+    pending batch's Channel::len read under the state lock."""
+    def counters():
+        sites = []
+        for crate in crates:
+            for fn, want in (("increment_by", "fetch_add"), ("sample", "load")):
+                key = "%s::internal_metrics::Counter::%s" % (crate, fn)
+                if not P.has_body(key):
+                    raise mir.AnchorMissing(key)
+                b = P.body(key)
+                cs = [c for c in b.calls(normal_only=True)]
+                if len(cs) != 1 or cs[0].callee.get("name") != want:
+                    return False, "%s must be exactly one atomic %s (found %s)" % (key, want, [c.callee.get("name") for c in cs]), [], b.span
+                if mir.o_field_path(b.origin(cs[0].args[0]))[1] != ["0"]:
+                    return False, "%s does not operate on the counter's own cell" % key, [], cs[0].loc
+                if fn == "increment_by" and not mir.o_is_param(b.origin(cs[0].args[1]), idx=2):
+                    return False, "%s adds %s, not its argument" % (key, o_str(b.origin(cs[0].args[1]))), [], cs[0].loc
+                if fn == "sample" and not common.has_root(b.origin(0), "callsite", cs[0].bb):
+                    return False, "%s does not return the loaded value" % key, [], cs[0].loc
+                sites.append(cs[0].loc)
+            key = "%s::internal_metrics::Counter::increment" % crate
+            b = P.body(key)
+            cs = [c for c in b.calls(normal_only=True)]
+            if len(cs) != 1 or cs[0].callee.get("name") != "increment_by" or mir.o_const_value(b.origin(cs[0].args[1])) != 1 \
+                    or not mir.o_is_param(b.origin(cs[0].args[0]), idx=1):
+                return False, "%s must be self.increment_by(1)" % key, [], b.span
+            sites.append(cs[0].loc)
+        return True, "", sites
+    chk.ob("%s.R6:counters" % prefix, "a counter increment adds exactly its argument (1) to its own cell; sampling loads it", counters)
+
+    def names():
+        n = 0
+        for crate in crates:
+            key = "%s::internal_metrics::InternalMetrics::sample" % crate
+            if not P.has_body(key):
+                raise mir.AnchorMissing(key)
+            b = P.body(key)
+            for c in b.calls(normal_only=True):
+                if c.callee.get("name") != "new" or "metric::Metric" not in (c.callee.get("path") or c.callee.get("full") or ""):
+                    continue
+                name = mir.o_const_value(b.origin(c.args[1]))
+                val = b.origin(c.args[4])
+                if not (val[0] == "call" and val[1].callee.get("name") == "sample"):
+                    return False, "metric `%s` is not a sampled counter/gauge (%s)" % (name, o_str(val)), [], c.loc
+                fld = mir.o_field_path(b.origin(val[1].args[0], through_calls=("deref",)))[1]
+                if fld != [name]:
+                    return False, "the metric named `%s` reports the value of self.%s" % (name, ".".join(map(str, fld))), [], c.loc
+                n += 1
+        if n < 6:
+            raise mir.AnchorMissing("sampled metrics (found %d)" % n)
+        return True, "", ["%d metrics, each named after the field it samples" % n]
+    chk.ob("%s.R6:metric-names" % prefix, "every sampled metric carries the name of the counter it reads", names)
+
+    def queue_length():
+        bs = [b for b in P.by_crate["emit_batcher"] if b.method == "sample_metrics" and "ChannelMetrics" in (b.self_ty or "") and not b.is_closure]
+        if not bs:
+            raise mir.AnchorMissing("Source for ChannelMetrics")
+        b = bs[0]
+        mk = [c for c in b.calls(normal_only=True) if c.callee.get("name") == "new" and "metric::Metric" in (c.callee.get("path") or c.callee.get("full") or "")
+              and mir.o_const_value(b.origin(c.args[1])) == "queue_length"]
+        if len(mk) != 1:
+            return False, "expected one metric named queue_length", [], b.span
+        v = b.origin(mk[0].args[4])
+        if not (v[0] == "call" and v[1].callee.get("trait") == CH and v[1].callee.get("name") == "len"):
+            return False, "queue_length reports %s, not Channel::len of the pending batch" % o_str(v), [], mk[0].loc
+        names, root = state_field_path(b.origin(v[1].args[0]))
+        if names[:2] != ["next_batch", "channel"]:
+            return False, "queue_length measures %s, not state.next_batch.channel" % names, [], v[1].loc
+        if not lock_calls(b):
+            return False, "queue_length is read without the state lock", [], v[1].loc
+        return True, "", [v[1].loc, mk[0].loc]
+    chk.ob("%s.R6:queue_length" % prefix, "the queue_length gauge is the pending batch's item count read under the state lock", queue_length)
